@@ -89,6 +89,20 @@ CHECKS = {
         note='Histories for replay are sampled by seed from the exhaustive TLC dump (quick 110, thorough 1600). Results compared as report '
              'text without date/time lines.',
         tech='TLA+ spec (Client.tla) model-checked with TLC; TLC-generated histories replayed into the real client; TLC trace validation'),
+    'C09': dict(
+        cat='model_checking', ref='DESIGN.md section 5 C09',
+        text='Report.tla models the report writer as a state machine over every accepted configuration (end-use x plant type x add-ons / '
+             'S-DAC-GT / overpressure x lifetime x construction years x time steps per year): TLC checks one row per simulated (and '
+             'construction) year with consecutive year numbers, that no cell reads past its series (index stride), that the table ladders are '
+             'total and the three profiles always present, and termination. ReportDef.tla is a hand transcription of what each of ~190 labels '
+             'and each column of the ten profile-table layouts stands for. Real runs over all writer branches (4 reservoir models, 8 end-uses, '
+             '8 plant types, 3 economic models, lifetimes 1..100, construction years 1..14, time steps 1..12, foreign input units, add-ons, '
+             'S-DAC-GT, overpressure, examples) are snapshotted at the `calculated` hook and TraceReport.tla compares every labelled figure '
+             'and every table cell of the .out file with the snapshot in exact rationals: value in the printed unit (exact unit factors of '
+             'Units.tla) rounded to the printed precision, unit label, N/A rule, text fields, row counts, year order, heading units.',
+        note='Lines the specification does not know (SUTRA/AGS-specific, Calculation Time) are counted as unexplained and not judged. '
+             'Precision is read from the printed token, so a change of the number of decimals alone is not a violation.',
+        tech='TLA+ spec of the report writer (Report.tla/ReportDef.tla) model-checked with TLC; TLC trace validation of real reports against the pre-print Model snapshot (TraceReport.tla)'),
     'C10': dict(
         cat='model_checking', ref='DESIGN.md section 5 C10',
         text='Parser.tla evaluates the result parser\'s field lookup on real strings: TLC checks the collision matrix of every client field '
